@@ -236,7 +236,7 @@ PROPERTIES["C11"] = {
     "assumptions": SRE_ASSUME + ["error values boxed to [0,1000] (values >= DBL_MAX-eps would defeat the monitor's numeric_limits::max() sentinel and are outside the claim)"],
     "bounds": {"history length": "<= 5 (quick), <= 7 (thorough)", "patience": "1..4", "trials x folds": "<= 3 x 3", "samples per stored tensor": "1..2"},
     "outside": ["the boosting rounds themselves and the per-fold statistics produced by them (inner solvers, weak-learner fitting, samplers): unit C11_fit replaces the tuning driver by a scripted one (symbolic per-fold models and error tensors) and covers the real code AFTER the driver: fold averaging, prediction = bias + sum of weak learners, final statistics recomputed on the fitted samples",
-                "fit() of linear models"],
+                "fit() of linear models with the real inner solver (unit C11_linear runs the real fit with an arbitrary-point oracle as inner solver: per-fold and final statistics vs recomputation; the absolute-error statistics mostly come back `unknown` from nlsat, the loss statistics are decided; exploration is truncated by the path budget in the quick tier)"],
     "units": [
         {"engine": "sre", "harness": "C11_monitor", "sources": ["C11_monitor.cpp"],
          "quick": ["mode=es;k=%d;pat=%d;valid=%d" % (k, p, v) for (k, p, v) in ((3, 1, 1), (5, 2, 1), (5, 3, 1), (4, 2, 0), (5, 4, 1), (5, 1, 1))] +
@@ -252,6 +252,12 @@ PROPERTIES["C11"] = {
          "encoded": ["nano::gboost_model_t::fit (everything after the tuning driver: optimum trial, fold-model summation, wlearner::merge, scale(1/folds), predict, gboost::evaluate, selected(), result_t::store)",
                      "nano::gboost_model_t::do_predict", "nano::learner_t::{fit_dataset, predict}", "nano::affine_wlearner_t::{do_predict, scale, try_merge}", "nano::ml::result_t::{optimum_trial, extra, store, stats}",
                      "nano::targets_iterator_t::loop", "nano::flatten_loss_t<mse>::{value, error}"]},
+        {"engine": "sre", "harness": "C11_linear", "sources": ["C11_linear.cpp"],
+         "quick": ["model=ordinary;n=4;folds=2;sc=0", "model=ordinary;n=5;folds=2;sc=0;sub=1"],
+         "thorough": ["model=ordinary;n=4;folds=2;sc=0", "model=ordinary;n=5;folds=2;sc=0;sub=1", "model=ordinary;n=4;folds=2;sc=2", "model=ordinary;n=6;folds=3;sc=0;sub=1", "model=ridge;n=4;folds=2;sc=0"],
+         "budget": {"quick": {"deadline_s": 60, "max_paths": 3000, "query_s": 5}, "thorough": {"deadline_s": 900, "max_paths": 100000, "query_s": 30}},
+         "encoded": ["nano::linear_t::{fit, do_predict}", "(anonymous)::fit (flatten iterator, make_function, un-scaling of weights and bias)", "nano::linear::evaluate", "nano::linear::predict", "nano::ml::tune (real driver)", "nano::ml::result_t::{store, stats, extra, optimum_trial}",
+                     "nano::kfold_splitter_t::split", "nano::upscale(stats, scaling, ...)", "solver_t::minimize replaced by an arbitrary-point oracle"]},
     ],
 }
 
